@@ -2,6 +2,7 @@
 Concrete instances used by the non-vacuity examples of `Props/C13.lean`.
 -/
 import HydroVerif.Lemmas.C13Header
+import HydroVerif.Lemmas.C13Machine
 import Mathlib.Data.Rat.Floor
 
 namespace HydroVerif.C13
@@ -51,7 +52,7 @@ def g0 : Grid Int :=
 def g1 : Grid Int := { g0 with dtype := ⟨.float, 4⟩, nodata := 2143289344, data := [[1, 2139095040, 4290772992], [1, 2, 3]] }
 
 theorem g0_ok : GridOK ioToy g0 :=
-  ⟨⟨by decide, by decide, by decide, by decide, fun a v h => by simp [lookup, g0] at h,
+  ⟨⟨by decide, by decide, by decide, by decide, fun a _ v h => by simp [lookup, g0] at h,
     fun h => absurd h (by decide)⟩, by decide, by decide, by decide⟩
 
 
@@ -70,6 +71,45 @@ def ioQ : NumIO ℚ where
 def gq : Grid ℚ :=
   { name := [], comment := [], nrows := 2, ncols := 3, xll := 0, yll := 0, csz := 1, dtype := ⟨.uint, 1⟩,
     nodata := 0, data := [[1, 2, 3], [4, 5, 6]] }
+
+
+/-! ### instances for the state-machine, catchment-history and dictionary examples -/
+
+/-- a data assignment of the wrong shape, item writes with a negative and with an out-of-range index, no-data values
+accepted and refused, bounds in the wrong order, `load` on a file of the wrong size, a 3-d array, a fill -/
+def opsEx : List (Op Int) :=
+  [.edit (.data [[1, 2]]), .itemAt (-1) 5, .itemAt 6 5, .nodataVal (.int 7), .nodataVal (.text "abc".toList),
+   .mindata (.int 3), .maxdata (.int 1), .load .big [0, 1, 2], .dataND, .fillVal (.text " 12 ".toList),
+   .edit (.data [[1, 2, 9], [4, 5, 6]]), .fillVal (.int (2 ^ 70))]
+
+
+theorem opsEx_wf : ∀ op ∈ opsEx, OpWF ioToy g0.dtype op := by
+  intro op hop
+  have hk : g0.dtype.kind ≠ .float := by decide
+  simp only [opsEx, List.mem_cons, List.not_mem_nil, or_false] at hop
+  rcases hop with rfl | rfl | rfl | rfl | rfl | rfl | rfl | rfl | rfl | rfl | rfl | rfl
+  · show ∀ r ∈ [[1, 2]], ∀ w ∈ r, w < wordBound g0.dtype; decide
+  · show (5 : Nat) < wordBound g0.dtype; decide
+  · show (5 : Nat) < wordBound g0.dtype; decide
+  · exact fun w h => nodataWord_int_ok ioToy _ hk _ (Or.inl ⟨_, rfl⟩) w h
+  · exact fun w h => nodataWord_int_ok ioToy _ hk _ (Or.inr ⟨_, rfl⟩) w h
+  · exact fun w h => (nodataWord_int_ok ioToy _ hk _ (Or.inl ⟨_, rfl⟩) w h).1
+  · exact fun w h => (nodataWord_int_ok ioToy _ hk _ (Or.inl ⟨_, rfl⟩) w h).1
+  · trivial
+  · trivial
+  · exact fun w h => (nodataWord_int_ok ioToy _ hk _ (Or.inr ⟨_, rfl⟩) w h).1
+  · show ∀ r ∈ [[1, 2, 9], [4, 5, 6]], ∀ w ∈ r, w < wordBound g0.dtype; decide
+  · exact fun w h => (nodataWord_int_ok ioToy _ hk _ (Or.inl ⟨_, rfl⟩) w h).1
+
+
+def c0Ex : Catchment Int := { name := "c".toList, flowdir := g0, outlet := none, inlets := none, area := none, filled := none }
+def copsEx : List COp := [.delineate 3 (some [5]) (some ([1, 2], [1, 2, 3])), .delineate 9 none none, .delineate 4 none (some ([4], [4, 0]))]
+
+
+/-- `from_dict` with only the two mandatory keys -/
+def dMin : GridDictP Int :=
+  { name := some "n".toList, ncols := some 2, nrows := none, csz := none, xll := none, yll := none, dtype := none,
+    nodata := none, comment := none }
 
 
 end HydroVerif.C13
